@@ -310,6 +310,15 @@ def cases(rng, n, all_ops):
     g = Gen(rng, all_ops)
     out = [T("math", [row(*r)]) for r in FIXED_ROWS]
     out += [T("math", [T("msup", [mi("x"), row(mn("1"), mn("2"))])])]
+    # a row that ends up with one child (white space goes into an attribute): the child stands for the row, keeps what it
+    # says itself and takes the rest from the row
+    sp = T("mspace", attrs=[("width", "1em")])
+    out += [T("math", [T("mrow", [T("mi", text="x", attrs=[("id", "x")]), sp], attrs=[("id", "r")])]),
+            T("math", [T("mrow", [T("menclose", [mi("x")], attrs=[("id", "e"), ("notation", "box")]), sp], attrs=[("class", "k"), ("id", "r")])]),
+            T("math", [T("msqrt", [T("mrow", [T("mfrac", [mi("a"), mi("b")], attrs=[("linethickness", "0")]), sp], attrs=[("mathcolor", "red")])])]),
+            T("math", [T("mrow", [T("mo", text="-", attrs=[("form", "prefix"), ("mathcolor", "blue")]), sp], attrs=[("id", "r"), ("mathcolor", "red"), ("data-x", "1")])]),
+            T("math", [T("mrow", [sp, T("mn", text="7", attrs=[("data-changed", "added"), ("id", "n")])], attrs=[("data-changed", "added"), ("id", "r")])]),
+            T("math", [T("mrow", [T("mi", text="y", attrs=[("mathvariant", "bold")]), sp], attrs=[("intent", "f"), ("id", "r")])])]
     while len(out) < n:
         out.append(g.top(rng.randint(0, 3)))
     return out
